@@ -42,6 +42,12 @@ Definition vidx (o : vorder) (i j : nat) : nat :=
 Definition vun (o : vorder) (k : nat) : nat * nat :=
   match o with Row d => (k / d, k mod d) | Col d => (k mod d, k / d) | Sys n => sys_un n k end.
 
+(* the four matrix representations of the conversion table *)
+Inductive rep := RChoi | RLiou | RPauli | RChi.
+Definition leaves_pauli (a : rep) : bool := match a with RPauli | RChi => true | _ => false end.
+Definition rep_eqb (a b : rep) : bool :=
+  match a, b with RChoi, RChoi | RLiou, RLiou | RPauli, RPauli | RChi, RChi => true | _, _ => false end.
+
 Section Model.
   Context {T : Type} (K : ops T) (cj : T -> T).
   Variable ps : nat -> mat T.        (* 0,1,2,3 -> I, X, Y, Z as 2x2 matrices *)
@@ -153,6 +159,37 @@ Section Model.
       mmul3 B L (dagger (4 ^ n) (4 ^ n) B).
     Definition to_chi (o : vorder) (n : nat) (U : mat T) : mat T :=
       liouville_to_pauli o n (to_choi o U).
+
+    (* the finite table of (non-spectral) conversion functions: <a>_to_<b> for every ordered pair of
+       {choi, liouville, pauli, chi} (row / column order), and kraus_to_<b> *)
+    Definition from_kraus_rep (col : bool) (n : nat) (r : rep) (Ks : list (mat T)) : mat T :=
+      match r with
+      | RChoi => kraus_to_choi (ord col (2 ^ n)) Ks
+      | RLiou => kraus_to_liouville col (2 ^ n) Ks
+      | RPauli => kraus_to_pauli col n Ks
+      | RChi => kraus_to_chi (ord col (2 ^ n)) n Ks
+      end.
+    Definition conv_rep (col : bool) (n : nat) (a b : rep) (M : mat T) : mat T :=
+      match a, b with
+      | RChoi, RLiou => choi_to_liouville col (2 ^ n) M
+      | RChoi, RPauli => choi_to_pauli col n M
+      | RChoi, RChi => choi_to_chi (ord col (2 ^ n)) n M
+      | RLiou, RChoi => liouville_to_choi col (2 ^ n) M
+      | RLiou, RPauli => liouville_to_pauli (ord col (2 ^ n)) n M
+      | RLiou, RChi => liouville_to_chi col n M
+      | RPauli, RLiou => pauli_to_liouville (ord col (2 ^ n)) n M
+      | RPauli, RChoi => pauli_to_choi col n M
+      | RPauli, RChi => pauli_to_chi col n M
+      | RChi, RChoi => chi_to_choi (ord col (2 ^ n)) n M
+      | RChi, RLiou => chi_to_liouville col n M
+      | RChi, RPauli => chi_to_pauli col n M
+      | _, _ => M
+      end.
+    (* a path r0 -> r1 -> ... through the table *)
+    Fixpoint run_path (col : bool) (n : nat) (a : rep) (path : list rep) (M : mat T) : mat T :=
+      match path with [] => M | b :: rest => run_path col n b rest (conv_rep col n a b M) end.
+    Fixpoint path_end (a : rep) (path : list rep) : rep :=
+      match path with [] => a | b :: rest => path_end b rest end.
   End Pauli.
 
   (* ---------------- Stinespring *)
@@ -180,6 +217,10 @@ Section Model.
      |lambda_k| > tol and returns sqrt(lambda_k) * unvectorization(v_k).  Here s_k = sqrt(lambda_k). *)
   Definition choi_to_kraus_from_eig (o : vorder) (evs : list (T * vec T)) : list (mat T) :=
     map (fun sv => mscal (fst sv) (unvectorize o (snd sv))) evs.
+
+  (* with the threshold: eigh returns ALL d^2 pairs; `keep` marks those with |lambda_k| > precision_tol *)
+  Definition choi_to_kraus_thresholded (o : vorder) (keep : T * vec T -> bool) (evs : list (T * vec T)) : list (mat T) :=
+    choi_to_kraus_from_eig o (filter keep evs).
 
   (* ---------------- quantum_networks.py, channels (two systems) *)
   (* QuantumNetwork.from_operator(choi, partition=(p0,p1)) : tensor[(a,a')][(b,b')] = choi[(a,b)][(a',b')] *)
